@@ -353,7 +353,8 @@ fn decode_edifact<'a>(
 }
 
 fn decode_c40_tuple(a: u8, b: u8) -> (u8, u8, u8) {
-    let mut full = ((a as u16) << 8) + b as u16 - 1;
+    // the pair (0, 0) is not a valid encoding, it is mapped to the invalid first value 40
+    let mut full = (((a as u16) << 8) + b as u16).wrapping_sub(1);
     let tmp = full / 1600;
     let c1 = tmp as u8;
     full -= tmp * 1600;
